@@ -4,6 +4,7 @@
 package core
 
 import (
+	"runtime"
 	"strconv"
 	"strings"
 
@@ -97,11 +98,26 @@ func Pack(x Packable) string {
 	CheckStringSize("Pack", size)
 	buf := pack.NewEncoder(size)
 	hash2 := uint64(17)
-	x.Pack(&hash2, buf)
+	packInto(x, &hash2, buf)
 	if hash1 != hash2 || len(buf.Buffer()) != size {
 		panic("object modified during packing")
 	}
 	return buf.String()
+}
+
+// packInto calls x.Pack. If the value grew since PackSize was computed,
+// the fixed size buffer overflows; report that as a modification
+// rather than as a Go runtime error.
+func packInto(x Packable, hash *uint64, buf *pack.Encoder) {
+	defer func() {
+		if e := recover(); e != nil {
+			if _, ok := e.(runtime.Error); ok {
+				panic("object modified during packing")
+			}
+			panic(e)
+		}
+	}()
+	x.Pack(hash, buf)
 }
 
 // Unpack returns the decoded value
